@@ -459,3 +459,29 @@ func C16XmlStream() {
 	}
 	zz.Fail("no error within the read bound")
 }
+
+// C03XmlBytes: arbitrary bytes (mostly malformed XML) through the real decoder and the stream
+// reader: no panic, a terminal result within a bounded number of Reads, errors are latched.
+func C03XmlBytes() {
+	zz.HangIsViolation()
+	L := zz.Param("L", 5)
+	in := zz.NondetBytes("in", L)
+	for _, b := range in {
+		zz.Assume(zz.ByteIn(b, "<>/a =\"&;!-?[]x:"))
+	}
+	xp := []string{"/a", "//a", "/a/a[a='x']", "/*"}[zz.NondetChoice("xpath", 4)]
+	sp, err := NewXMLStreamReader(&zzChunkReader{data: in, failAt: -1}, xp)
+	zz.Assume(err == nil)
+	for i := 0; i < L+2; i++ {
+		n, err := sp.Read()
+		if err != nil {
+			zz.Cover("terminal")
+			_, err2 := sp.Read()
+			zz.Assert(err2 == err, "the terminal error is returned again")
+			return
+		}
+		zz.Cover("record")
+		sp.Release(n)
+	}
+	zz.Fail("no terminal result within L+2 reads")
+}
